@@ -1,56 +1,8 @@
-(* PipeInv1.v -- structural invariants of a stream: program counters vs flags, registration, cursors. *)
+(* PipeInv1.v -- preservation of invariant group 1 (program counters vs flags, registration, cursors). *)
 From Coq Require Import List Bool Arith NArith Lia.
 From RecordUpdate Require Import RecordSet.
-From Pipe Require Import PipeModel PipeFacts PipeTac.
+From Pipe Require Import PipeModel PipeFacts PipeTac PipeInvDefs.
 Import ListNotations RecordSetNotations.
-
-Definition mapped_k (p : kpc) : nat :=
-  match p with
-  | KMainMapped k | KMainAppended k _ | KFlushMapped k | KFlushAppended k | KErrCb k | KErrAccept k | KErrUnmap k
-  | KDrainMapped k => k
-  | _ => 0
-  end.
-Definition pending (p : kpc) : nat := match p with KMainAppended _ j => j | KFlushAppended k => k | _ => 0 end.
-Definition post_read (p : kpc) : bool :=
-  match p with KOff | KStop | KExiting | KDone | KFlushMapped 0 | KDrainMapped 0 => true | _ => false end.
-Definition post_main (p : kpc) : bool :=
-  match p with
-  | KFlushMapping | KFlushMapped _ | KFlushAppended _ | KFlushAgain | KStop | KErrUnmap _ | KDrainAgain | KDrainMapping
-  | KDrainMapped _ | KExiting | KDone => true
-  | _ => false
-  end.
-Definition in_main (p : kpc) : bool :=
-  match p with KTest | KMainMapping | KMainMapped _ | KMainAppended _ _ | KMainAgain => true | _ => false end.
-Definition in_err (p : kpc) : bool :=
-  match p with KErrCb _ | KErrAccept _ | KErrUnmap _ | KDrainAgain | KDrainMapping | KDrainMapped _ => true | _ => false end.
-Definition src_quiet (p : spc) : bool := match p with SOff | SWind2 | SExiting | SDone => true | _ => false end.
-Definition src_gone (p : spc) : bool := match p with SOff | SExiting | SDone => true | _ => false end.
-Definition src_in_loop (p : spc) : bool := match p with SLoop | SWMap | SMapped | SGot _ => true | _ => false end.
-Definition left_loop (p : spc) : bool := match p with SWind1 | SWind2 | SExiting | SDone => true | _ => false end.
-Definition gotbit (p : spc) : nat := match p with SGot _ => 1 | _ => 0 end.
-Definition ncommitted (s : stream) : nat := length (log s) - base s.
-Definition start_pre_sink (c : cstart) : bool :=
-  match c with TBegin | TStoStarted | TAccepted | TRegEnter | TRegMapped | TRegDone => true | _ => false end.
-Definition start_pre_src (c : cstart) : bool := match c with TSinkUp | TFiltUp | TCamStarted => true | _ => false end.
-Definition start_begun (c : cstart) : bool :=
-  match c with TStoStarted | TAccepted | TRegEnter | TRegMapped | TRegDone | TSinkUp | TFiltUp | TCamStarted => true | _ => false end.
-Definition mon_k (s : stream) : nat := match mon_map s with Some k => k | None => 0 end.
-
-(* ---- group 1: flags mirror program counters; cursors stay inside the log *)
-Record Inv1 (s : stream) : Prop := {
-  i_base : base s <= length (log s);
-  i_cur : sink_cur s + mapped_k (k_pc s) <= length (log s);
-  i_pend : pending (k_pc s) <= mapped_k (k_pc s);
-  i_map : sink_map s = if Nat.eqb (mapped_k (k_pc s)) 0 then None else Some (mapped_k (k_pc s));
-  i_srun : src_running s = negb (src_gone (s_pc s));
-  i_krun : sink_running s = negb (match k_pc s with KOff | KExiting | KDone => true | _ => false end);
-  i_frun : filt_running s = match f_pc s with FRun => true | _ => false end;
-  i_start_idle : start_pre_sink (c_start s) = true -> workers_idle s = true;
-  i_start_src : start_pre_src (c_start s) = true -> spc_idle (s_pc s) = true;
-  i_moncur : mon_cur s + mon_k s <= length (log s);
-  i_monunreg : mon_reg s = false -> mon_map s = None /\ mon_cur s = 0;
-  i_cstop : c_stop s <> CNone -> start_pre_sink (c_start s) = false /\ start_pre_src (c_start s) = false
-}.
 
 Lemma inv1_init : Inv1 init_stream.
 Proof. constructor; cbn; auto; try lia; try discriminate; try congruence. Qed.
